@@ -56,11 +56,8 @@ Qed.
 Print Assumptions C39_returns_last_partial.
 
 (* the frame condition is met by a callee that rebinds hy, adds keys, returns and raises;
-   on it the restoration is observable *)
-Theorem C39_hypotheses_satisfiable : frame_ok demo_oracle /\
-  match run_calls (nr demo_oracle) demo_calls (demo_heap, []) with
-  | Some (h', log') => hy_entry h' 5 = Some (Some (VRef 7)) /\ hy_entry h' 6 = Some None /\ List.length log' = 6
-  | None => False
-  end.
+   on it the restoration is observable ([demo_run], State/EvalRestoreProofs.v: three calls on two
+   dictionaries, one holding hy = object 7; afterwards it still holds object 7, the other has none) *)
+Theorem C39_hypotheses_satisfiable : frame_ok demo_oracle /\ demo_run.
 Proof. exact (conj demo_frame_ok demo_restores). Qed.
 Print Assumptions C39_hypotheses_satisfiable.
